@@ -12,6 +12,8 @@ if wave == '3':                                      # wave 3: own directory tre
     wt, out = f'/tmp/seed3/{prop}', f'/tmp/seed3/out_{prop}'
 if wave == '4':                                      # wave 4: /tmp/seed4, stored as <PROP>_<k+6>
     wt, out = f'/tmp/seed4/{prop}', f'/tmp/seed4/out_{prop}'
+if wave == '5':                                      # wave 5: /tmp/seed5, stored as <PROP>_<k+8>
+    wt, out = f'/tmp/seed5/{prop}', f'/tmp/seed5/out_{prop}'
 sid = f'{prop}_{k}' if wave == '1' else f'{prop}_{int(k) + 2 * (int(wave) - 1)}'
 def sh(cmd, **kw):
     p = subprocess.run(cmd, shell=True, stdout=subprocess.PIPE, stderr=subprocess.STDOUT, text=True, **kw)
